@@ -89,12 +89,26 @@ theorem C02_decode_reads (enc : Option Enc) (hk : int32Known enc = true) (bl : N
   exact ⟨s', h1, h3⟩
 
 /-- the ODX representation of an internal value in the object's base type / encoding / bit length, as
-    mathematics: `Spec.repr` for `A_INT32`, the plain binary numeral for `A_UINT32` -/
+    mathematics: `Spec.repr` for `A_INT32`, the plain binary numeral for `A_UINT32`, the IEEE-754 binary64 pattern
+    for `A_FLOAT64` (values *are* their patterns in this model), the bytes read as one big-endian numeral for
+    `A_BYTEFIELD` (first byte = most significant = lowest address) -/
 def Obj.specRepr (o : Obj) (v : IVal) : Nat :=
   match o.kind, v with
   | .int32, .int i => Spec.repr o.enc o.bl i
   | .uint32, .int i => i.toNat
+  | .float64, .flt b => b
+  | .bytes, .bytes b => b.foldl (fun acc x => 256 * acc + x) 0
   | _, _ => 0
+
+theorem foldl_eq_ofBytesBE (b : Bytes) (acc : Nat) :
+    b.foldl (fun acc x => 256 * acc + x) acc = acc * 256 ^ b.length + ofBytesBE b := by
+  induction b generalizing acc with
+  | nil => simp [ofBytesBE]
+  | cons x xs ih =>
+    simp only [List.foldl_cons, ih, ofBytesBE, List.length_cons, Nat.pow_succ]
+    have e : (256 * acc + x) * 256 ^ xs.length = acc * (256 ^ xs.length * 256) + x * 256 ^ xs.length := by
+      rw [Nat.add_mul, Nat.mul_comm 256 acc, Nat.mul_assoc, Nat.mul_comm 256]
+    omega
 
 theorem Obj.raw_eq_spec (o : Obj) (ho : o.ok) (v : IVal) (hr : o.inRange v) : o.raw v = o.specRepr v := by
   obtain ⟨hk, hbl, _⟩ := ho
@@ -102,10 +116,11 @@ theorem Obj.raw_eq_spec (o : Obj) (ho : o.ok) (v : IVal) (hr : o.inRange v) : o.
   unfold Obj.encOk at hk
   unfold Obj.raw Obj.specRepr
   cases hkind : o.kind <;> cases v <;> simp only [hkind] at hr hk ⊢
-  exact C02_numrepr o.enc hk o.bl hbl _ hr
+  · exact C02_numrepr o.enc hk o.bl hbl _ hr
+  · rw [foldl_eq_ofBytesBE]; simp
 
 /-- **Bit-exact PDUs, flat composite tier.** For a request/response/structure made of (≤ 4000) positioned
-    integer VALUE parameters (`A_INT32` in any of its four encodings, `A_UINT32`) and an accepted assignment of representable values with no overlap warning:
+    VALUE parameters (`A_INT32` in any of its four encodings, `A_UINT32`, `A_FLOAT64`, `A_BYTEFIELD`) and an accepted assignment of representable values with no overlap warning:
     (1) bit `j` of the ODX representation of each value sits at the absolute position the positional rule gives —
     the object's byte position is the structure's origin (0) + BYTE-POSITION, or the byte behind the previous
     parameter (`cursorAfter`), its bit position is BIT-POSITION, its byte order as declared;
